@@ -225,3 +225,7 @@ m("C15-revert-D26-zero-rows-no-header", "C15", "import_export/csv/_export.py",
   "    df = pd.DataFrame(rows, columns=header)\n", "    df = pd.DataFrame(rows)\n    df = df[header]\n")
 m("C14-revert-D26-zero-rows-no-header", "C14", "import_export/csv/_export.py",
   "    df = pd.DataFrame(rows, columns=header)\n", "    df = pd.DataFrame(rows)\n    df = df[header]\n")
+m("C14-revert-D27-none-valued-attributes-not-left-out", "C14", "import_export/geff/_export.py",
+  "    if any(value is None for attrs in attr_dicts for value in attrs.values()):", "    if False:")
+m("C16-D27-none-valued-attributes-stripped-on-the-live-graph", "C16", "import_export/geff/_export.py",
+  "        if graph is tracks.graph:\n            graph = graph.copy()\n", "")
